@@ -726,6 +726,9 @@ func selftest(args []string) int {
 	for _, id := range ids {
 		for _, p := range plans[id].Parts {
 			k := p.World + "/" + p.Profile
+			if only := os.Getenv("VERIF_ONLY_PROFILE"); only != "" && p.Profile != only {
+				continue
+			}
 			if !seen[k] {
 				seen[k] = true
 				targets = append(targets, target{p.World, p.Profile, id, p.QuickRuns, p.PerProc})
@@ -848,10 +851,17 @@ func mutants(args []string) int {
 		if filepath.Base(f) == "patch.diff" {
 			// a seeded change that its own property's check does not see (and need not: see its meta.json) names the check that does
 			var meta struct {
-				CheckedWith string `json:"checked_with"`
+				CheckedWith   string `json:"checked_with"`
+				NotDetectable string `json:"not_detectable"`
 			}
 			if b, err := os.ReadFile(filepath.Join(filepath.Dir(f), "meta.json")); err == nil && json.Unmarshal(b, &meta) == nil && meta.CheckedWith != "" {
 				id, via = meta.CheckedWith, " [by the "+meta.CheckedWith+" check]"
+			}
+			if meta.NotDetectable != "" {
+				// a recorded limit of coverage: the change sits in code no world runs
+				fmt.Printf("seeded %-40s NOT-DETECTABLE (%s)\n", name, meta.NotDetectable)
+				rows = append(rows, row{name, "not-detectable"})
+				continue
 			}
 		}
 		scratch, _ := os.MkdirTemp("/tmp", "verif-mutant-")
